@@ -440,3 +440,8 @@ func retVal(ret *ssa.Return, i int) ssa.Value {
 }
 
 func retLast(ret *ssa.Return) ssa.Value { return retVal(ret, len(ret.Results)-1) }
+
+func isBoolean(t types.Type) bool {
+	b, ok := t.Underlying().(*types.Basic)
+	return ok && b.Info()&types.IsBoolean != 0
+}
